@@ -1,5 +1,6 @@
 //! Ops and generators for the schema properties C15, C16, C19.
 //!   key <path> <schema>                 C16: both hashers (const/borrowed via hook, owned) must agree
+//!   keyty <idx> <path> <schema>        C16: Key::for_path::<T> for registry type idx (run time and compile time), Key comparisons
 //!   keydiff <kind> <path> <s1> <s2>     C16: `same` / `differ`; oracle: a type-name change keeps the key, every other listed change alters it
 //!   keypath <p1> <p2> <schema>          C16: path sensitivity
 use crate::prng::Rng;
@@ -21,6 +22,35 @@ fn keys(path: &str, o: &O) -> Result<[u8; 8], String> {
     Ok(owned)
 }
 
+/// `Key::for_path::<T>` for concrete types: (run-time call, the type's schema, the same call evaluated at COMPILE time
+/// on a fixed path). The hook-based `key` op reaches the const hasher but not this public constructor.
+pub type KeyEntry = (fn(&str) -> postcard_schema::key::Key, fn() -> O, [u8; 8]);
+pub const CONST_PATH: &str = "const/eval/path";
+#[macro_export]
+macro_rules! key_entries {
+    ($($t:ty),* $(,)?) => {
+        vec![$((
+            (|p: &str| postcard_schema::key::Key::for_path::<$t>(p)) as fn(&str) -> postcard_schema::key::Key,
+            (|| postcard_schema::schema::owned::OwnedDataModelType::from(<$t as postcard_schema::Schema>::SCHEMA)) as fn() -> postcard_schema::schema::owned::OwnedDataModelType,
+            { const K: postcard_schema::key::Key = postcard_schema::key::Key::for_path::<$t>($crate::ops_schema::CONST_PATH); K.to_bytes() },
+        )),*]
+    };
+}
+pub fn key_registry() -> Vec<KeyEntry> {
+    use std::collections::{BTreeMap, BTreeSet};
+    let mut v: Vec<KeyEntry> = key_entries!(
+        u8, u16, u32, u64, u128, i8, i16, i32, i64, i128, bool, f32, f64, char, (), String, &'static str, [u8],
+        core::num::NonZeroU8, core::num::NonZeroI64, Option<u16>, Option<Option<String>>, Result<u8, String>, Result<(), Vec<u8>>,
+        Vec<u8>, Vec<Option<u16>>, Vec<(u8, String)>, (u8,), (u8, i16, String), (bool, char, f32, f64), [u8; 0], [u16; 32], [(u8, bool); 3],
+        BTreeSet<u32>, BTreeMap<String, u32>, BTreeMap<u16, String>, core::ops::Range<u16>, core::ops::RangeInclusive<i64>,
+        heapless::Vec<u8, 4>, heapless::String<8>, uuid::Uuid, chrono::DateTime<chrono::Utc>, nalgebra::SMatrix<f32, 2, 2>,
+        postcard_schema::key::Key, O, Vec<O>,
+    );
+    v.extend(crate::ops_c14::corpus_key_entries());
+    v.extend(crate::generated_schema::generated_key_entries());
+    v
+}
+
 fn path_of(x: &Sexp) -> Option<String> {
     String::from_utf8(unhex(x.atom()?)?).ok()
 }
@@ -34,6 +64,35 @@ pub fn eval(ctx: &mut Ctx, op: &str, args: &[Sexp]) -> Option<String> {
                 Ok(k) => format!("ok {}", hex(&k)),
                 Err(e) => e,
             })
+        }
+        "keyty" => {
+            // keyty <registry index> <path> <schema>: the public constructor Key::for_path::<T>
+            let idx: usize = args.first()?.atom()?.parse().ok()?;
+            let p = path_of(args.get(1)?)?;
+            let s = parse(args.get(2)?)?;
+            let reg = key_registry();
+            let (f, schema_of, const_key) = reg.get(idx)?;
+            if schema_of() != s {
+                return Some("FAIL the type registry does not match the op line (stale op file?)".into());
+            }
+            let k = match crate::core_ops::guard(|| f(&p)) {
+                Ok(k) => k,
+                Err(()) => return Some("FAIL panic in Key::for_path".into()),
+            };
+            let owned = postcard_schema::key::Key::for_owned_schema_path(&p, &s);
+            if k != owned || k.to_bytes() != owned.to_bytes() {
+                return Some(format!("FAIL Key::for_path::<T> = {} but Key::for_owned_schema_path = {}", hex(&k.to_bytes()), hex(&owned.to_bytes())));
+            }
+            if f(CONST_PATH).to_bytes() != *const_key {
+                ctx.oracle_fail("Key::for_path::<T> evaluated at compile time differs from the run-time call".into());
+            }
+            // the key's own comparison / byte conversions
+            let other = f(&format!("{}#", p));
+            let back = unsafe { postcard_schema::key::Key::from_bytes(k.to_bytes()) };
+            if back != k || !k.const_cmp(&back) || k.const_cmp(&other) != (k == other) || k.const_cmp(&other) != (k.to_bytes() == other.to_bytes()) {
+                ctx.oracle_fail("Key::const_cmp / from_bytes / to_bytes / == are inconsistent".into());
+            }
+            Some(format!("ok {}", hex(&k.to_bytes())))
         }
         "keydiff" => {
             let kind = args.first()?.atom()?.to_string();
@@ -138,9 +197,29 @@ pub fn eval(ctx: &mut Ctx, op: &str, args: &[Sexp]) -> Option<String> {
                     if format!("{}", o) != s {
                         ctx.oracle_fail("Display differs from to_pseudocode".into());
                     }
-                    format!("ok {}", hex(s.as_bytes()))
+                    // the public classification helper next to the formatter rides along
+                    format!("ok {} prim={}", hex(s.as_bytes()), postcard_schema::schema::fmt::is_prim(&o) as u8)
                 }
             })
+        }
+        "fnvraw" => {
+            // the public incremental hasher: one update, two updates, Default; digest little-endian
+            use postcard_schema::key::hash::Fnv1a64Hasher as H;
+            let bytes = unhex(args.first()?.atom()?)?;
+            let mut h = H::new();
+            h.update(&bytes);
+            let mut h2 = H::default();
+            let cut = bytes.len() / 3;
+            h2.update(&bytes[..cut]);
+            h2.update(&[]);
+            h2.update(&bytes[cut..]);
+            let mut h3 = H::new();
+            h3.update(&bytes);
+            let d = h.digest_bytes();
+            if d != h2.digest_bytes() || d != h3.digest().to_le_bytes() {
+                return Some("FAIL Fnv1a64Hasher: split updates / digest / digest_bytes disagree".into());
+            }
+            Some(format!("ok {}", hex(&d)))
         }
         "discover" => {
             let o = parse(args.first()?)?;
@@ -255,8 +334,34 @@ pub fn gen_paths(r: &mut Rng) -> Vec<String> {
     vec!["".into(), "a".into(), "test_path".into(), "topic/\u{e9}\u{4e16}\u{1F600}".into(), long]
 }
 
+/// a path of exactly `len` characters: mostly ASCII path characters, sometimes multi-byte scalars
+pub fn rand_path(r: &mut Rng, len: usize) -> String {
+    const EXOTIC: [char; 6] = ['\u{e9}', '\u{4e16}', '\u{1F600}', '\u{0}', ' ', '\u{7f}'];
+    (0..len)
+        .map(|_| match r.below(20) {
+            0 => *r.pick(&EXOTIC),
+            1 | 2 => '/',
+            3 => '_',
+            4 | 5 => (b'0' + r.below(10) as u8) as char,
+            6 => (b'A' + r.below(26) as u8) as char,
+            _ => (b'a' + r.below(26) as u8) as char,
+        })
+        .collect()
+}
+
 pub fn gen_c16(r: &mut Rng, thorough: bool, out: &mut Vec<String>) {
     let paths = gen_paths(r);
+    // the public byte hasher against FNV-1a 64 itself
+    for len in (0..=20usize).chain([63, 64, 65, 255, 256, 1000]) {
+        out.push(format!("fnvraw {}", hex(&r.bytes(len))));
+    }
+    out.push(format!("fnvraw {}", hex(b"foobar"))); // 0x85944171f73967e8 in the reference vectors
+    // every path length 0..=70 and around 255 / 4096, on two fixed schemas
+    for len in (0..=70usize).chain([127, 128, 255, 256, 257, 4095, 4097]) {
+        let p = rand_path(r, len);
+        out.push(format!("key {} (tuple u8 (option string))", hex(p.as_bytes())));
+        out.push(format!("key {} (struct {} (struct ({} u32) ({} (seq bool))))", hex(p.as_bytes()), hex(b"S"), hex(b"id"), hex(b"flags")));
+    }
     // exhaustive: every node kind / data kind, every path class (recovers both tag tables through the API)
     for s in all_kinds() {
         for p in &paths {
@@ -272,10 +377,18 @@ pub fn gen_c16(r: &mut Rng, thorough: bool, out: &mut Vec<String>) {
     out.push(format!("keydiff field-name {} (struct {} (struct ({} (option u8)))) (struct {} (struct ({} u8)))", hex(b""), hex(b"A"), hex(b"a"), hex(b"B"), hex(b"am")));
     out.push(format!("keydiff field-order {} (struct {} (struct ({} usize) ({} usize))) (struct {} (struct ({} usize) ({} usize)))", hex(b"p"), hex(b"S"), hex(b"x"), hex(b"xkx"), hex(b"S"), hex(b"xkx"), hex(b"x")));
     out.push(format!("keydiff element-kind {} (tuple (tuple bool) bool) (tuple (tuple bool bool))", hex(b"p")));
+    // the public constructor for concrete types (hand list, C14 corpus types, seed-generated derive programs)
+    for (idx, (_, schema_of, _)) in key_registry().iter().enumerate() {
+        let s = schema_of();
+        let (l1, l2) = ((idx * 3) % 41, (idx * 7 + 5) % 73);
+        for p in [&paths[idx % paths.len()], &rand_path(r, l1), &rand_path(r, l2), &CONST_PATH.to_string()] {
+            out.push(format!("keyty {} {} {}", idx, hex(p.as_bytes()), show(&s)));
+        }
+    }
     let n = if thorough { 40_000 } else { 3_000 };
     for i in 0..n {
         let s = gen_schema(r, 1 + (i % 5) as u32, 1 + (i % 5) as u64);
-        let p = r.pick(&paths[..4]).clone();
+        let p = if i % 2 == 0 { r.pick(&paths[..4]).clone() } else { let l = r.below(40) as usize; rand_path(r, l) };
         out.push(format!("key {} {}", hex(p.as_bytes()), show(&s)));
         for (kind, m) in mutations(r, &s) {
             out.push(format!("keydiff {} {} {} {}", kind, hex(p.as_bytes()), show(&s), show(&m)));
